@@ -108,6 +108,8 @@ class RdmWorld(World):
             w += [("pad", 2.0), ("scribble", 3.5)]
         if e["kind"] == "vqe" and cfg["shots"] is not None and e["have_freqs"]:
             w += [("resample", 2.5)]
+        if e["kind"] == "mp2" and e["e"] is not None:
+            w += [("query", 2.0)]
         x = rng.random() * sum(v for _, v in w)
         for k, v in w:
             x -= v
@@ -258,6 +260,20 @@ class RdmWorld(World):
                 return [Violation("C13", "unexpected-refusal", site + ":simulate", {"exception": repr(ex)[:300]})]
             e["e"] = float(np.asarray(en).reshape(-1)[0])
             ctx.outcome(k, "ok")
+            return V
+        if k == "query":
+            # read-only queries other than get_rdm that a solver offers once it has been run (MP2: amplitudes in UCCSD order)
+            if kind != "mp2" or e["e"] is None:
+                ctx.outcome(k, "skipped")
+                return V
+            try:
+                for _ in range(1 + op.get("seed", 0) % 2):
+                    quiet(s.get_mp2_amplitudes)
+                ctx.outcome(k, "ok")
+                ctx.probe("C13.other_query_between_simulate_and_get_rdm")
+            except Exception as ex:
+                ctx.outcome(k, "refused-undetermined")
+                ctx.ev("query-refused", repr(ex)[:80])
             return V
         if k == "rdm":
             return self._rdm(op, e, site)
